@@ -42,6 +42,14 @@ PRE = ["linFCR 3", "linNCPR 2", "linSigma 5", "linHydro 4", "linComp 3 -", "kapp
 
 
 def cases(rng, tier):
+    from ..real import hex6 as _hex6w
+    # words that can also be read as float literals / three-letter codes; a long chain pasted in blocks of ten (> 40 white-space runs)
+    for wd in gen.AMBIGUOUS_WORDS + [" nan ", "NaN\n"]:
+        yield Case(["mkq %s %s" % (_hex6w(wd), o) for o in ("seq", "countPos", "fcr", "kd", "mw")], {"kind": "ambiguous-word"})
+    for L in (420, 777):
+        sq = gen.rand_seq(rng, "idp", L)
+        raw = " ".join(sq[i:i + 10] for i in range(0, L, 10)) + "\n"
+        yield Case(["mkq %s %s" % (_hex6w(raw), o) for o in ("len", "countPos", "countNeg", "fcr", "ncpr", "kd")], {"kind": "many-white-space-runs"})
     from ..real import hex6 as _hex6
     # backend objects built directly from lower / mixed case text
     for kind_, sq in gen.rand_seqs(rng, 12 if tier == "quick" else 120, 60):
